@@ -45,7 +45,7 @@ type chanFlow struct {
 type freshNode struct{ id int }
 
 type fieldNode struct{ f *types.Var }
-type elemNode struct{ of any }     // element of a container node (map/slice of chans, pointer-to-chan cell)
+type elemNode struct{ of any } // element of a container node (map/slice of chans, pointer-to-chan cell)
 type resultNode struct {
 	fn  *ssa.Function
 	idx int
